@@ -114,10 +114,10 @@ var checks = map[string]check{
 	"C11": {
 		ID: "C11", Pkg: "c11", Tags: "verif", NeedBin: true, MaxPar: 10,
 		Jobs: []job{
-			{Run: "^TestRoundTrip$", Quick: 1500, QShards: 4, Thor: 40000, TShards: 14},
-			{Run: "^TestCompression$", Quick: 1500, QShards: 4, Thor: 40000, TShards: 14},
+			{Run: "^TestRoundTrip$", Quick: 1500, QShards: 4, Thor: 15000, TShards: 14},
+			{Run: "^TestCompression$", Quick: 1500, QShards: 4, Thor: 15000, TShards: 14},
 			{Run: "^TestOptions$", Quick: 5000, QShards: 1, Thor: 100000, TShards: 4},
-			{Run: "^TestEndToEnd$", Quick: 60, QShards: 4, Thor: 600, TShards: 14},
+			{Run: "^TestEndToEnd$", Quick: 60, QShards: 4, Thor: 300, TShards: 14},
 		},
 		Rule:   "in-process: requests wrapping ASTs that the real front end produced from generated multi-file models (diamond includes, resolved references) with drawn strings; Marshal/Unmarshal identity, include compression + data trailer identity and restoration of the compiler's own tree, option string round trip. end to end: thriftgo runs a scripted plugin that dumps the decoded request (compared with the request the harness builds in-process) and answers per a drawn script: files, unnamed/named patches, warnings, error, exit status, truncated/garbage/empty stdout, delay beyond --plugin-time-limit; non-trivial = AST with a diamond include and >=1 resolved external reference, or a fault response; distinct by case",
 		Assume: []string{"reorder_fields and trim_idl are not drawn (they rewrite the request AST before plugins run)", "garbage stdout is generated only when certainly malformed", "'no output after a fault' is asserted because generation fails before anything is persisted"},
